@@ -39,6 +39,8 @@ def synth_arg(name, ann, variant):
         from aioesphomeapi.model import UserService, UserServiceArg, UserServiceArgType
         return UserService(name="s", key=1, args=[UserServiceArg(name="a", type=UserServiceArgType.INT),
                                                    UserServiceArg(name="b", type=UserServiceArgType.STRING_ARRAY)])
+    if "dict[str, str]" in s:
+        return {"k": "v"}
     if name == "data" and "dict" in s.lower():
         return {"a": 1, "b": ["x"]}
     if name == "data" and "bytes" in s:
